@@ -21,7 +21,7 @@ theorem fact_start_subscription :
     Facts.C09.startSubscription = "\"vdr\" -> n.handleNetworkEvent" ∧
     Facts.C09.startSubscribeOptions = ["n.networkClient.WithPersistency", "network.WithSelectionFilter"] ∧
     Facts.C09.startFilterConjuncts =
-      [("event.Type", "dag.PayloadEventType"), ("event.Transaction.PayloadType()", "DIDDocumentType")] ∧
+      [("event.Type", "==", "dag.PayloadEventType"), ("event.Transaction.PayloadType()", "==", "DIDDocumentType")] ∧
     Facts.C09.notifierFiltersBeforeReceiver = true := by decide
 
 /-- the filter and `checkTransactionIntegrity` compare the payload type with the SAME constant, whose value is the
